@@ -27,76 +27,50 @@ def canon (fs : FS) (p : PPath) : Option Comps :=
 /-- **FileSystemLoader (cached or not, sync or async): a resolved path is a configured search directory
 followed by a non-empty relative part that has no `..`, no `.`, no empty component and no separator inside a
 component** — for every name string, including absolute ones, NUL, control characters and any `ext`. The
-relative part is the parsed name, with `ext` appended to its last component when that had no suffix. -/
+relative part is the parsed name (only its last component may have had `ext` appended). -/
 theorem fsl_resolved_inside (cfg : FSLConfig) (fs : FS) (name : List Ch) (p : PPath)
     (h : fslResolve cfg fs name = .ok p) :
     ∃ base ∈ cfg.search, ∃ rel, rel ≠ [] ∧ Clean rel ∧ p = ⟨base.root, base.parts ++ rel⟩ ∧
       rel.dropLast = (parse name).parts.dropLast := by
-  unfold fslResolve at h
-  simp only at h
-  split at h
-  · cases h
-  · rename_i hn
-    split at h
-    · cases h
-    · rename_i tp' ht
-      split at h
-      · cases h
-      · rename_i hchk
-        simp only [not_or, PPath.isAbsolute, decide_eq_true_eq, Nat.not_lt, Nat.le_zero_eq] at hchk
-        obtain ⟨hr, hne, hdl, hpl⟩ := fslTarget_ok ht hn (parse_parts_plain name)
-        obtain ⟨base, hb, hp, _, _⟩ := fslSearch_ok h
-        exact ⟨base, hb, tp'.parts, hne, clean_of_plain hpl hchk.1, by rw [hp, join_rel hchk.2], hdl⟩
+  obtain ⟨tp', hroot, _, hne, hclean, hdl, hsearch⟩ := fslResolve_ok h
+  obtain ⟨base, hb, hp, _, _⟩ := fslSearch_ok hsearch
+  exact ⟨base, hb, tp'.parts, hne, hclean, by rw [hp, join_rel hroot], hdl⟩
 
-/-- **PackageLoader** (after `fix: PackageLoader rejects absolute template names`): same statement. -/
+/-- **PackageLoader** (as fixed by `fix: PackageLoader rejects absolute template names`): same statement. -/
 theorem pkg_resolved_inside (cfg : PkgConfig) (fs : FS) (name : List Ch) (p : PPath)
     (h : pkgResolve cfg fs name = .ok p) :
     ∃ base ∈ cfg.paths, ∃ rel, rel ≠ [] ∧ Clean rel ∧ p = ⟨base.root, base.parts ++ rel⟩ ∧
       rel.dropLast = (parse name).parts.dropLast := by
-  unfold pkgResolve at h
-  simp only at h
-  split at h
-  · cases h
+  obtain ⟨tp', hroot, _, hne, hclean, hdl, hsearch⟩ := pkgResolve_ok h
+  obtain ⟨base, hb, hp, _⟩ := pkgSearch_ok hsearch
+  exact ⟨base, hb, tp'.parts, hne, hclean, by rw [hp, join_rel hroot], hdl⟩
+
+/-- An absolute name (one, two or more leading slashes) never resolves — `base.joinpath(absolute)` would
+discard `base` — whatever the file system contains (both loaders). -/
+theorem absolute_never_resolves (name : List Ch) (habs : (parse name).root > 0) :
+    (∀ cfg fs p, fslResolve cfg fs name ≠ .ok p) ∧ (∀ cfg fs p, pkgResolve cfg fs name ≠ .ok p) := by
+  constructor
+  · intro cfg fs p h
+    obtain ⟨_, _, h0, _⟩ := fslResolve_ok h
+    omega
+  · intro cfg fs p h
+    obtain ⟨_, _, h0, _⟩ := pkgResolve_ok h
+    omega
+
+/-- PackageLoader: an absolute name, a name with a `..` component, and an empty name are answered with
+`TemplateNotFoundError` before the file system is consulted. -/
+theorem pkg_hostile_not_found (cfg : PkgConfig) (fs : FS) (name : List Ch)
+    (hbad : (parse name).root > 0 ∨ dotdot ∈ (parse name).parts ∨ (parse name).parts = []) :
+    pkgResolve cfg fs name = .error .notFound := by
+  unfold pkgResolve
+  simp only
+  split
+  · rfl
   · rename_i hn
-    split at h
-    · cases h
-    · rename_i hchk
-      simp only [not_or, PPath.isAbsolute, decide_eq_true_eq, Nat.not_lt, Nat.le_zero_eq] at hchk
-      split at h
-      · cases h
-      · rename_i tp' ht
-        obtain ⟨base, hb, hp, _⟩ := pkgSearch_ok h
-        split at ht
-        · rename_i hs
-          obtain ⟨hr, hne, hdl, hpl⟩ := withSuffix_parts_plain hs ht (Or.inr trivial) (parse_parts_plain name)
-          have hdd : dotdot ∉ tp'.parts := by
-            obtain ⟨_, hnn, _, hparts⟩ := withSuffix_ok hs ht
-            rw [hparts]
-            simp only [List.mem_append, List.mem_cons, List.not_mem_nil, or_false, not_or]
-            refine ⟨fun hm => hchk.1 ((List.dropLast_sublist _).subset hm), ?_⟩
-            intro e
-            -- `name ++ ext = ".."` would need a suffix-less name "." or ".." — both excluded
-            have hmem := name_mem_parts hnn
-            have hpn := parse_parts_plain name _ hmem
-            cases hnm : (parse name).name with
-            | nil => exact hnn hnm
-            | cons a as =>
-              rw [hnm] at e
-              cases as with
-              | nil =>
-                simp only [dotdot, List.cons_append, List.nil_append, List.cons.injEq] at e
-                exact hpn.2.1 (by rw [hnm, ← e.1]; rfl)
-              | cons b bs =>
-                simp only [dotdot, List.cons_append, List.cons.injEq] at e
-                have hbs : bs = [] := by
-                  have := e.2.2; cases bs with
-                  | nil => rfl
-                  | cons _ _ => simp at this
-                exact hchk.1 (by rw [hbs, ← e.1, ← e.2.1] at hnm; rw [← hnm] at hmem; exact hmem)
-          exact ⟨base, hb, tp'.parts, hne, clean_of_plain hpl hdd, by rw [hp, join_rel (hr.trans hchk.2)], hdl⟩
-        · cases ht
-          exact ⟨base, hb, (parse name).parts, parts_ne_nil_of_name hn,
-            clean_of_plain (parse_parts_plain name) hchk.1, by rw [hp, join_rel hchk.2], rfl⟩
+    rcases hbad with hb | hb | hb
+    · simp [PPath.isAbsolute, hb]
+    · simp [hb]
+    · exact absurd hb (parts_ne_nil_of_name hn)
 
 /-! ## Sentence 1b — physical containment -/
 
@@ -115,53 +89,140 @@ theorem fsl_contents_inside_rejecting (cfg : FSLConfig) (fs : FS) (name : List C
     · cases h
     · rename_i c' hread
       cases h
-      obtain ⟨base, hb, rel, hne, _, hp, _⟩ := fsl_resolved_inside cfg fs name p hres
-      -- unfold the search to get the two `resolve()` results and the prefix test
-      unfold fslResolve at hres
-      simp only at hres
+      obtain ⟨tp', hroot, _, hne, _, _, hsearch⟩ := fslResolve_ok hres
+      obtain ⟨base, hb, hp, _, hrs⟩ := fslSearch_ok hsearch
+      obtain ⟨r, b, hr, hbr, hpre⟩ := hrs hrej
+      have hk := pyRead_ok hread
+      rw [hp, join_rel hroot] at hk hr ⊢
+      obtain ⟨f1, m, f, q, hw1, _, hnode, hdir, hw, hr', hb'⟩ := read_factors hne hk
+      rw [hr'] at hr; cases hr
+      rw [hb'] at hbr; cases hbr
+      obtain ⟨s, hs⟩ := isPrefix_append hpre
+      refine ⟨base, hb, b, s, by simp [canon, hw1], hdir, hs ▸ hnode, by simp [canon, hw, hs]⟩
+
+/-- **Without the flag, a search directory that contains no symbolic link confines the loader physically:**
+the bytes returned are those of the file at `canonical(search_dir)/rel`, `rel` being the clean relative part
+of `fsl_resolved_inside`. (With links inside the directory and rejection off, following them is the
+documented behaviour; the property only forbids it when rejection is enabled.) -/
+theorem fsl_contents_inside_linkfree (cfg : FSLConfig) (fs : FS) (name : List Ch) (p : PPath) (c : Nat)
+    (hlf : ∀ base ∈ cfg.search, ∀ cb, canon fs base = some cb → LinkFreeBelow fs.root cb)
+    (h : fslGetSource cfg fs name = .ok (p, c)) :
+    ∃ base ∈ cfg.search, ∃ cb rel, canon fs base = some cb ∧ rel ≠ [] ∧ Clean rel ∧
+      p = ⟨base.root, base.parts ++ rel⟩ ∧ nodeAt fs.root (cb ++ rel) = some (.file c) := by
+  unfold fslGetSource at h
+  split at h
+  · cases h
+  · rename_i p' hres
+    split at h
+    · cases h
+    · rename_i c' hread
+      cases h
+      obtain ⟨tp', hroot, _, hne, hclean, _, hsearch⟩ := fslResolve_ok hres
+      obtain ⟨base, hb, hp, _, _⟩ := fslSearch_ok hsearch
+      have hk := pyRead_ok hread
+      rw [hp, join_rel hroot] at hk ⊢
+      obtain ⟨f1, m, f, q, hw1, hw2, hnode, _, _, _, _⟩ := read_factors hne hk
+      have hcb : canon fs base = some m := by simp [canon, hw1]
+      have := walk_linkfree fs.root m (hlf base hb m hcb) tp'.parts hclean f1 (f, q) hw2
+      cases this
+      exact ⟨base, hb, m, tp'.parts, hcb, hne, hclean, rfl, hnode⟩
+
+/-- PackageLoader has no rejection option; a link-free package directory confines it physically. -/
+theorem pkg_contents_inside_linkfree (cfg : PkgConfig) (fs : FS) (name : List Ch) (p : PPath) (c : Nat)
+    (hlf : ∀ base ∈ cfg.paths, ∀ cb, canon fs base = some cb → LinkFreeBelow fs.root cb)
+    (h : pkgGetSource cfg fs name = .ok (p, c)) :
+    ∃ base ∈ cfg.paths, ∃ cb rel, canon fs base = some cb ∧ rel ≠ [] ∧ Clean rel ∧
+      p = ⟨base.root, base.parts ++ rel⟩ ∧ nodeAt fs.root (cb ++ rel) = some (.file c) := by
+  unfold pkgGetSource at h
+  split at h
+  · cases h
+  · rename_i p' hres
+    split at h
+    · cases h
+    · rename_i c' hread
+      cases h
+      obtain ⟨tp', hroot, _, hne, hclean, _, hsearch⟩ := pkgResolve_ok hres
+      obtain ⟨base, hb, hp, _⟩ := pkgSearch_ok hsearch
+      have hk := pyRead_ok hread
+      rw [hp, join_rel hroot] at hk ⊢
+      obtain ⟨f1, m, f, q, hw1, hw2, hnode, _, _, _, _⟩ := read_factors hne hk
+      have hcb : canon fs base = some m := by simp [canon, hw1]
+      have := walk_linkfree fs.root m (hlf base hb m hcb) tp'.parts hclean f1 (f, q) hw2
+      cases this
+      exact ⟨base, hb, m, tp'.parts, hcb, hne, hclean, rfl, hnode⟩
+
+/-! ## Sentence 2 — the only exception is TemplateNotFoundError -/
+
+/-- the `ext` setting is one `pathlib` accepts (`FileSystemLoader.__init__` raises `ValueError` otherwise) -/
+def ExtValid (ext : Option Name) : Prop := ∀ x, ext = some x → suffixOk x = true
+
+/-- **FileSystemLoader.get_source fails with TemplateNotFoundError and nothing else** — for every name: too
+long for the file system (ENAMETOOLONG, as fixed), embedded NUL or unencodable code points (`ValueError`
+inside `stat`, swallowed by `exists()`), symbolic-link loops (`resolve()` would raise `RuntimeError`, but it is
+only reached for paths `stat` accepted), a directory or a dangling link in place of the file, and a read
+after a successful resolve cannot fail. -/
+theorem fsl_only_not_found (cfg : FSLConfig) (fs : FS) (name : List Ch) (e : Exc) (hext : ExtValid cfg.ext)
+    (h : fslGetSource cfg fs name = .error e) : e = .notFound := by
+  unfold fslGetSource at h
+  split at h
+  · rename_i e' hres
+    cases h
+    unfold fslResolve at hres
+    simp only at hres
+    split at hres
+    · cases hres; rfl
+    · rename_i hn
       split at hres
-      · cases hres
+      · rename_i e'' ht; exact (fslTarget_error hext hn ht).elim
       · split at hres
-        · cases hres
-        · split at hres
-          · cases hres
-          · rename_i tp' _ hchk
-            simp only [not_or, PPath.isAbsolute, decide_eq_true_eq, Nat.not_lt, Nat.le_zero_eq] at hchk
-            obtain ⟨base', hb', hp', _, hrs⟩ := fslSearch_ok hres
-            obtain ⟨r, b, hr, hbr, hpre⟩ := hrs hrej
-            have hk := pyRead_ok hread
-            rw [hp', join_rel hchk.2] at hk hr
-            obtain ⟨f1, m, f, q, hw1, hw2, hnode, hr', hb''⟩ := stat_factors hk
-            have hbase : (⟨base'.root, base'.parts⟩ : PPath) = base' := rfl
-            rw [hbase] at hb'' hw1
-            rw [hr'] at hr; cases hr
-            rw [hb''] at hbr; cases hbr
-            obtain ⟨s, hs⟩ := isPrefix_append hpre
-            have hdir : isDir (nodeAt fs.root b) = true := by
-              cases hparts : tp'.parts with
-              | nil =>
-                -- the relative part is never empty
-                obtain ⟨_, _, rel, hne, _, hpe, _⟩ := fsl_resolved_inside cfg fs name _ (by
-                  show fslResolve cfg fs name = .ok (join base' tp')
-                  rw [← hp']
-                  exact by
-                    unfold fslResolve; simp only
-                    rename_i hn _ ht _
-                    simp only [hn, if_false, ht]
-                    simp only [PPath.isAbsolute, hchk.1, hchk.2, Nat.lt_irrefl, decide_false, or_self, if_false,
-                      Bool.false_eq_true]
-                    exact hres)
-                exfalso
-                rename_i hn _ ht _
-                exact (fslTarget_ok ht hn (parse_parts_plain name)).2.1 hparts
-              | cons c0 rest => rw [hparts] at hw2; exact walk_strict_isDir _ _ _ _ _ _ hw2
-            refine ⟨base', hb', b, s, ?_, hdir, by rw [← hs]; exact hnode, ?_⟩
-            · simp [canon, hw1]
-            · have hw : walk false fs.root fs.maxLinks (fs.start ⟨base'.root, base'.parts ++ tp'.parts⟩)
-                  (base'.parts ++ tp'.parts) = .ok (f, r) := by
-                have hs0 : fs.start ⟨base'.root, base'.parts ++ tp'.parts⟩ = fs.start base' := rfl
-                rw [hs0, walk_append, hw1]; exact hw2
-              rw [hp', join_rel hchk.2]
-              simp [canon, hw, hs]
+        · cases hres; rfl
+        · rename_i hchk
+          simp only [not_or, PPath.isAbsolute, decide_eq_true_eq, Nat.not_lt, Nat.le_zero_eq] at hchk
+          exact fslSearch_error hchk.2 hres
+  · rename_i p hres
+    obtain ⟨tp', _, _, _, _, _, hsearch⟩ := fslResolve_ok hres
+    obtain ⟨_, _, _, hprobe, _⟩ := fslSearch_ok hsearch
+    obtain ⟨c, hc⟩ := fslProbe_true hprobe
+    rw [pyRead_of_file hc] at h
+    cases h
+
+/-- **PackageLoader.get_source fails with TemplateNotFoundError and nothing else** (as fixed: empty name,
+ENAMETOOLONG), for an `ext` that `pathlib` accepts. -/
+theorem pkg_only_not_found (cfg : PkgConfig) (fs : FS) (name : List Ch) (e : Exc) (hext : suffixOk cfg.ext = true)
+    (h : pkgGetSource cfg fs name = .error e) : e = .notFound := by
+  unfold pkgGetSource at h
+  split at h
+  · rename_i e' hres
+    cases h
+    unfold pkgResolve at hres
+    simp only at hres
+    split at hres
+    · cases hres; rfl
+    · rename_i hn
+      split at hres
+      · cases hres; rfl
+      · split at hres
+        · rename_i e'' ht
+          split at ht
+          · exact (withSuffix_error hext hn ht).elim
+          · cases ht
+        · exact pkgSearch_error hres
+  · rename_i p hres
+    obtain ⟨tp', _, _, _, _, _, hsearch⟩ := pkgResolve_ok hres
+    obtain ⟨_, _, _, hfile⟩ := pkgSearch_ok hsearch
+    obtain ⟨c, hc⟩ := pyIsFile_true hfile
+    rw [pyRead_of_file hc] at h
+    cases h
+
+/-- **`resolve()` cannot raise where `resolve_path` calls it**: once `exists()`/`is_file()` accepted the
+candidate, both `resolve(strict=False)` calls return the kernel's canonical paths (no `RuntimeError` from a
+symlink loop, no `ValueError`), so the `is_relative_to` test compares real locations. -/
+theorem reject_check_compares_real_paths (fs : FS) (base : PPath) (rel : Comps) (hne : rel ≠ [])
+    (h : fslProbe fs ⟨base.root, base.parts ++ rel⟩ = .ok true) :
+    ∃ q b, pyResolve fs ⟨base.root, base.parts ++ rel⟩ = .ok q ∧ canon fs ⟨base.root, base.parts ++ rel⟩ = some q ∧
+      pyResolve fs base = .ok b ∧ canon fs base = some b := by
+  obtain ⟨c, hc⟩ := fslProbe_true h
+  obtain ⟨f1, m, f, q, hw1, _, _, _, hw, hr, hb⟩ := read_factors hne hc
+  exact ⟨q, m, hr, by simp [canon, hw], hb, by simp [canon, hw1]⟩
 
 end LiquidVerif.C22
